@@ -680,6 +680,10 @@ func (s *State) havocAllHeap() {
 		s.Heap[k] = Fresh("H$"+k, h.Sort)
 	}
 	s.X.heapHavocEpoch++
+	// axioms about package-level values hold in every reachable state
+	if s.X.P != nil {
+		s.X.entryAssumptions(s, nil)
+	}
 }
 
 // havocHeapAt replaces the fields under root at object ref only.
